@@ -5,6 +5,8 @@ import numpy as np
 
 from vmon import conds, gen, instr, oracles
 
+from vmon.scale import S
+
 ID = 'C14'
 RULE = ('cases = (a) all score matrices over {0,1,2} for K <= 3 with both assignment algorithms (exhaustive), random float and integer '
         'score matrices incl. entries at the integer dtype minimum; (b) DHTV / greedy / oracle aligners on real masks (K 1..6, odd F, '
@@ -25,24 +27,24 @@ def plan(tier, seed):
     pick = lambda xs: xs[int(rng.integers(len(xs)))]
     cases = [dict(lane='exhaustive', K=K, alg=alg, rs=[seed, 14, K]) for K in (1, 2, 3) for alg in ('greedy', 'optimal')]
     i = 100
-    n = 300 if tier == 'quick' else 3000
+    n = S(tier, 300, 3000)
     for r in range(n):
         cases.append(dict(lane='matrix', K=int(rng.integers(1, 7)), lead=pick([[], [3], [2, 2]]), alg=pick(['greedy', 'optimal']),
                           dtype=pick(['float', 'float', 'int8', 'int16', 'int64', 'int8-min', 'int32-min', 'float-ties']), rs=[seed, 15, i]))
         i += 1
-    m = 240 if tier == 'quick' else 2400
+    m = S(tier, 240, 2400)
     for r in range(m):
         K = int(rng.integers(1, 7))
         F = int(pick([1, 3, 5, 9, 17, 33, 65]))
         cases.append(dict(lane='aligner', aligner=pick(['dhtv', 'greedy', 'oracle']), metric=pick(['cos', 'euclidean', 'multiply']), alg=pick(['greedy', 'optimal']),
                           mask=pick(MASKS), K=K, F=F, T=int(pick([1, 2, 5, 20, 128])), rs=[seed, 16, i]))
         i += 1
-    p = 60 if tier == 'quick' else 600
+    p = S(tier, 60, 600)
     for r in range(p):
         cases.append(dict(lane='inline', kind=pick(['cacgmm', 'cwmm', 'cbmm', 'cwmm', 'cacgmm']), K=int(rng.integers(2, 4)), F=int(pick([3, 5, 9])), T=int(rng.integers(8, 25)),
                           D=int(rng.integers(2, 5)), aligner=pick(['greedy-cos', 'greedy-euclidean', 'dhtv']), rs=[seed, 17, i]))
         i += 1
-    q = 120 if tier == 'quick' else 1200
+    q = S(tier, 120, 1200)
     for r in range(q):
         cases.append(dict(lane='builtin', K=int(rng.integers(1, 5)), F=int(rng.integers(1, 6)), T=int(rng.integers(1, 30)), spread=float(pick([0.5, 3, 30])),
                           eps=float(pick([0, 0, 1e-10, 1e-3])), wkind=pick(['fk', 'k', 'kt', 'scalar']), rs=[seed, 18, i]))
